@@ -45,14 +45,24 @@ def gen_T18():
     need(ast.unparse(comps[0].elt) == v and ast.unparse(comps[0].generators[0].iter) == 'self.schedule'
          and ast.unparse(comps[0].generators[0].ifs[0]) == '%s[1] != name' % v, 'removeEvent: filter changed')
     need(len(_calls(rem, 'heapify')) == 1, 'removeEvent: heapify missing')
-    # rescheduleEvent: f = removeEvent(name); addEvent(f, t, name=name)  -- which keywords are passed on?
+    # rescheduleEvent (repaired, fix of C18.F17): look the entry's args/kwargs up, removeEvent, addEvent with them
     rs = find_def(t, 'rescheduleEvent', 'Schedule')
-    need(len(rs.body) == 2 and ast.unparse(rs.body[0]) == 'f = self.removeEvent(name)', 'rescheduleEvent: shape changed')
-    calls = _calls(rs.body[1], 'addEvent')
+    need([ast.unparse(x) for x in rs.body[:2]] == ['args = []', 'kwargs = {}'], 'rescheduleEvent: defaults of args/kwargs changed')
+    need(len(rs.body) == 5 and isinstance(rs.body[2], ast.With) and len(rs.body[2].body) == 1
+         and isinstance(rs.body[2].body[0], ast.For), 'rescheduleEvent: shape changed (expected lookup loop under the lock)')
+    loop = rs.body[2].body[0]
+    need(ast.unparse(loop.iter) == 'self.schedule' and len(loop.body) == 1 and isinstance(loop.body[0], ast.If)
+         and ast.unparse(loop.body[0].test) == '%s[1] == name' % loop.target.id
+         and [ast.unparse(x) for x in loop.body[0].body] ==
+             ['args, kwargs = (%s[2], %s[3])' % (loop.target.id, loop.target.id), 'break']
+         and not loop.body[0].orelse and not loop.orelse, 'rescheduleEvent: lookup loop changed')
+    need(ast.unparse(rs.body[3]) == 'f = self.removeEvent(name)', 'rescheduleEvent: removeEvent call changed')
+    calls = _calls(rs.body[4], 'addEvent')
     need(len(calls) == 1 and [ast.unparse(a) for a in calls[0].args] == ['f', 't'], 'rescheduleEvent: addEvent call changed')
-    kws = sorted(k.arg or '**' for k in calls[0].keywords)
-    need(kws in (['name'], ['args', 'kwargs', 'name']), 'rescheduleEvent: unexpected keywords %r' % kws)
-    passes = 'args' in kws
+    kws = sorted((k.arg or '**', ast.unparse(k.value)) for k in calls[0].keywords)
+    need(kws == [('args', 'args'), ('kwargs', 'kwargs'), ('name', 'name')],
+         'rescheduleEvent does not pass name, args and kwargs on to addEvent: %r' % kws)
+    passes = True
     # wrapper: try: f(*args, **kwargs) finally: count bookkeeping; `return self.addEvent(wrapper, time.time() + t, name)`
     mk = find_def(t, 'makePeriodicWrapper', 'Schedule')
     wr = [n for n in mk.body if isinstance(n, ast.FunctionDef) and n.name == 'wrapper']
